@@ -145,6 +145,11 @@ def run(tier, seed):
                 m["id"] = "m1"
         r["twin"] = {"by": "perm", "order": list(range(len(r["modules"])))[::-1]}
         rs.append(r)
+    # the same call twice in one session (warnings recorded in one block under Python's default action): the second call
+    # names the same left-out modules as the first
+    for r in ac.real_family_cases(rng, 1 if q else 3, 3, extra_unused=1):
+        r["repeat"] = True
+        rs.append(r)
     for r in ac.real_family_cases(rng, 1 if q else 4, 4):       # incomplete / duplicated sets
         x = rng.random()
         if x < 0.4 and len(r["modules"]) > 1:
